@@ -261,7 +261,7 @@ type scenario struct {
 }
 
 var terminators = []string{"peer-close", "stream-error", "handler-error", "deadline", "transport-eof"}
-var forced = []string{"X1a", "X1b", "X2", "X3", "X4", "X5a", "X5b", "X5c", "X6", "X7", "X8", "X9", "X10", "X11", "X12", "X13", "X14", "X15", "X16", "X17"}
+var forced = []string{"X1a", "X1b", "X2", "X3", "X4", "X5a", "X5b", "X5c", "X6", "X7", "X8", "X9", "X10", "X11", "X12", "X13", "X14", "X15", "X16", "X17", "X18"}
 
 func run(c *core.Case) {
 	if c.Index < len(forced)*2 {
@@ -1513,6 +1513,64 @@ func runForced(c *core.Case, id string, s2s bool) {
 		}
 		smp.Closers, smp.Senders = 2, 1
 		c.Count("close_after_a_transient_write_fault_scenarios", 1)
+	case "X18":
+		// SetCloseDeadline may be called at any time from any goroutine.  Four
+		// goroutines keep moving the close deadline (to a far future: it never
+		// comes due) while two others transmit as fast as they can; a third party
+		// asking for the session's state lock in the middle of a transmit must not
+		// wedge it.  Everybody finishes, and the session closes as usual.
+		var stop atomic.Bool
+		var hw sync.WaitGroup
+		far := time.Now().Add(24 * time.Hour)
+		for k := 0; k < 4; k++ {
+			hw.Add(1)
+			go func() {
+				defer hw.Done()
+				for !stop.Load() {
+					w.p.S.SetCloseDeadline(far)
+				}
+			}()
+		}
+		var sent atomic.Int64
+		var sw sync.WaitGroup
+		for k := 0; k < 2; k++ {
+			k := k
+			sw.Add(1)
+			go func() {
+				defer sw.Done()
+				for n := 0; n < 1500; n++ {
+					var err error
+					en := entries[(n+k)%len(entries)]
+					c.Guard(en.name, func() { err = en.do(context.Background(), w.p.S, fmt.Sprintf("x18-%d-%d", k, n)) })
+					if err != nil {
+						c.Violate("close:forced:X18", "X18: %s on an open session returned %v while the close deadline was being moved", en.name, err)
+						return
+					}
+					sent.Add(1)
+				}
+			}()
+		}
+		senders := make(chan struct{})
+		go func() { sw.Wait(); stop.Store(true); hw.Wait(); close(senders) }()
+		if done, quiet := stall.AwaitQuiet(senders, w.progress, 5*time.Second, 100*time.Second); !done {
+			stop.Store(true)
+			if ps := stall.Check(nil, 0); quiet && len(ps) > 0 {
+				c.Violate("close:actor-stall:"+ps[0].Func, "X18: after %d transmits that overlapped calls of SetCloseDeadline nothing moves any more; parked:\n%s", sent.Load(), ps[0].Stack)
+			} else {
+				c.Inconclusive("X18: the transmitting goroutines did not finish (quiescent=%v)", quiet)
+			}
+			w.p.Peer.Close()
+			w.p.Lib.Close()
+			return
+		}
+		c.Count("transmits_overlapping_set_close_deadline", int(sent.Load()))
+		c.Count("set_close_deadline_hammer_scenarios", 1)
+		e := w.h.begin("sender", "transmit:Send", "x18")
+		err := entries[0].do(context.Background(), w.p.S, "x18")
+		out, d := classifyErr(err)
+		w.h.end(e, out, d)
+		<-closeAsync("closer1")
+		smp.Closers, smp.Senders = 1, 3
 	case "X16":
 		// The application holds a token writer in mid-element; Encode,
 		// EncodeElement, Send and SendElement calls queue behind it with contexts
@@ -1714,7 +1772,7 @@ func Prop() *core.Prop {
 		Run: run,
 		Require: []string{"forced_scenarios", "stress_histories", "closed_then_large_stream_error_scenarios", "close_deadline_then_cancelled_transmit_scenarios", "cancelled_transmits_after_setclosedeadline", "sessions_whose_xml_console_fails_at_close_time", "readers_after_serve_returned", "second_serve_returned", "terminators_with_a_stream_error_larger_than_the_output_buffer", "close_under_write_fault", "close_returns_with_wire_snapshot", "synchronous_transport_closes", "cancelled_sender_deadline_scenarios", "close_deadline_during_loop_scenarios", "close_vs_default_reply_scenarios", "close_deadline_extended_scenarios", "transmits_queued_behind_blocked_close_scenarios", "unanswered_iqs_injected", "x9_close_queued_behind_writer", "x9_default_reply_queued_behind_writer", "layered_transport_histories", "layered_transport_close_deadline", "yield:close.enter", "yield:senderr.enter", "transmits_overlapping_a_close",
 			"transmits_begun_after_a_close_returned", "late_transmits", "porcupine_checks",
-			"close_while_shutdown_waits_for_input_scenarios", "close_after_a_transient_write_fault_scenarios", "transmits_whose_context_ends_while_queued_behind_a_token_writer_scenarios", "stream_errors_not_followed_by_the_closing_tag", "close_deadlines_already_passed_when_set", "close_deadlines_already_passed_when_set_with_serve_blocked_in_a_read", "handler_errors_of_shape_wrap-eof", "serve_returned:peer-close", "serve_returned:stream-error", "serve_returned:handler-error", "serve_returned:deadline", "serve_returned:transport-eof"},
+			"close_while_shutdown_waits_for_input_scenarios", "close_after_a_transient_write_fault_scenarios", "set_close_deadline_hammer_scenarios", "transmits_whose_context_ends_while_queued_behind_a_token_writer_scenarios", "stream_errors_not_followed_by_the_closing_tag", "close_deadlines_already_passed_when_set", "close_deadlines_already_passed_when_set_with_serve_blocked_in_a_read", "handler_errors_of_shape_wrap-eof", "serve_returned:peer-close", "serve_returned:stream-error", "serve_returned:handler-error", "serve_returned:deadline", "serve_returned:transport-eof"},
 		ReplayRepeats: 10,
 		CaseTimeout:   150 * time.Second,
 	}
